@@ -68,6 +68,12 @@ pub open spec fn c09_cell<L: KeyboardLayout>(l: L, k: KeyCode) -> bool {
         &m,
         HandleControl::Ignore,
     ))
+    // mapping disabled: holding Ctrl changes nothing (left Alt aside, with which Ctrl forms the AltGr chord)
+    &&& (forall|m: Modifiers| !m.lalt ==> (#[trigger] l.spec_map(k, &m, HandleControl::Ignore)) == l.spec_map(
+        k,
+        &Modifiers { lctrl: false, rctrl: false, ..m },
+        HandleControl::Ignore,
+    ))
 }
 
 // ---------------------------------------------------------------- C10
